@@ -260,7 +260,7 @@ class _TCPPooling:
             if no_response:
                 return
 
-        message.opt.no_response = None
+            message.opt.no_response = None
 
         message.remote._send_message(message)
 
